@@ -1846,7 +1846,7 @@ THEOREMS = ["K4_precedence", "K4_key_plan", "K4_allowed_keys", "C09_impl_is_code
             "C09_nearest_declaration", "C09_nearest_config", "C09_get_config", "C09_builder_config", "C09_fields_unique", "C09_alias_from_sources",
             "C09_mro_chain", "C09_mro_roots", "C09_own_view_finished", "C09_own_view_raw", "C09_nested", "C09_nested_inner_options", "C09_pre_hook", "C09_nearest_hook", "C09_hook_rename",
             "C09_dc_lookup", "C09_dc_chain", "C09_dc_roots", "C09_dataclass_fields_dc", "C09_deep", "C09_deep_list", "C09_deep_map_keys", "C09_deep_hooks", "C09_deep_no_hooks", "C09_inner_hook",
-            "C09_get_discriminator", "C09_own_discriminator", "C09_keys_discr", "C09_discr_accepted", "C09_discr_config_inheritance", "C09_declared_hook", "C09_pre_hook_code", "C09_from_class",
+            "C09_get_discriminator", "C09_own_discriminator", "C09_keys_discr", "C09_discr_accepted", "C09_discr_config_inheritance", "C09_declared_hook", "C09_pre_hook_code", "C09_from_class", "C09_init_filter", "C09_from_class_fields",
             "C09_field_key", "C09_outcome", "C09_alias_wins", "C09_fallback", "C09_accepted_covers_reads",
             "C09_reads_allowed", "C09_extra_members", "C09_extra_exact", "C09_ignored", "C09_forbidden_reported"]
 
@@ -1906,7 +1906,7 @@ def run(ctx: vlib.Ctx):
     # its own timeout): build it first with a generous budget, so that no obligation below depends on the 900 s of
     # vlib.coq_make being enough for a build from scratch.  Failures are reported by ctx.theorems / coq_check below.
     vlib.coq_make(["props/C09_keys.vo"], timeout=3300, jobs=6)
-    br = ctx.theorems("props/C09_keys.vo", THEOREMS, kernels=["K4", "K5", "K109a", "K109b"])
+    br = ctx.theorems("props/C09_keys.vo", THEOREMS, kernels=["K4", "K5", "K109a", "K109b", "K109c"])
     # every registered name must be a theorem of the props file with its own Print Assumptions, all closed
     import os
     import re
@@ -2092,18 +2092,19 @@ def run(ctx: vlib.Ctx):
     n_dom = n
     n_impl, n_ref = "impl-model(K4)-vs-from_dict", "keymodel(reference)-vs-from_dict"
     impl_cases = coq_cases
-    if k4_ok and all(ctx.kernel_report.get(k, {}).get("ok") for k in ("K109a", "K109b")):
-        # the implementation side = KeyFull.impl_from_class: dispatcher test and discriminator of the MRO (K109a), declared
-        # hook (K109b), get_config / aliases / allowed keys / key plan (K4); the reference side stays the kernel-free keymodel
-        n_impl = "impl_from_class(K4,K109a,K109b)-vs-from_dict"
+    if k4_ok and all(ctx.kernel_report.get(k, {}).get("ok") for k in ("K109a", "K109b", "K109c")):
+        # the implementation side = KeyInit.impl_from_class_fields: dispatcher test and discriminator of the MRO (K109a), declared
+        # hook (K109b), get_config / aliases / allowed keys / key plan (K4), which members are read (K109c); the reference
+        # side stays the kernel-free keymodel
+        n_impl = "impl_from_class_fields(K4,K109a,K109b,K109c)-vs-from_dict"
         FULLT = "list level * list (option (list hookop)) * option (option string) * list Z * dict * observation * list dlevel * bool"
-        ok_impl = ("fun c => match c with (h, hk, dk, dfl, d, o, r, mx) => match impl_from_class r hk mx d with "
+        ok_impl = ("fun c => match c with (h, hk, dk, dfl, d, o, r, mx) => match impl_from_class_fields r hk mx d with "
                    "Ok (Body x) => observation_eqb (observe dfl x) o | _ => false end end")
-        ok_both = ("fun c => match c with (h, hk, dk, dfl, d, o, r, mx) => match impl_from_class r hk mx d with "
+        ok_both = ("fun c => match c with (h, hk, dk, dfl, d, o, r, mx) => match impl_from_class_fields r hk mx d with "
                    "Ok (Body x) => observation_eqb (observe dfl x) o | _ => false end "
                    "&& observation_eqb (observe dfl (keymodel (class_of h dk) (apply_hook (nearest_hook hk) d))) o end")
-        IMPL = ("KeyModel KeyImpl KeyProofs KeyCfg KeyRewrite KeyHook PyK_alias PyK_clsdiscr KeyDiscr KeyHookLookup KeyFull",
-                "From VerifGen Require Import K4 K109a K109b.", ["theories/KeyFull.vo"])
+        IMPL = ("KeyModel KeyImpl KeyProofs KeyCfg KeyRewrite KeyHook PyK_alias PyK_clsdiscr KeyDiscr KeyHookLookup KeyFull KeyInit",
+                "From VerifGen Require Import K4 K109a K109b K109c.", ["theories/KeyInit.vo"])
         impl_cases = full_cases
         impl_type = FULLT
     else:
